@@ -164,6 +164,10 @@ class ModelProperty(engine.Property):
     def invariants(self, snap):
         return None
 
+    def canon(self, state):
+        """What of the state this property compares (default: all of it, as is)."""
+        return state
+
     def may_be_rejected(self, st, op):
         """Calls the property defines no effect for: accepted or refused, never half-done."""
         return False
@@ -221,7 +225,7 @@ class ModelProperty(engine.Property):
             return out, engine.viol(
                 self.outcome_kind(op, expected, why), {"op": op, "why": why}
             )
-        if snap != st.model.objs:
+        if self.canon(snap) != self.canon(st.model.objs):
             if st.model.alt is not None and snap == st.model.alt:
                 st.model.objs = st.model.alt
                 st.stats["relaxation:edge-moved-to-end-of-assigned-vertex"] += 1
